@@ -553,6 +553,24 @@ class Renderer:
     # ------------------------------------------------------------------------------
     def render(self, template_path):
         lines = open(template_path).read().split('\n')
+        # `//@ include <file>` anywhere (also inside the content of a sub-directive): the file's lines are spliced in first, so that
+        # a clause shared by two units (the contract one unit proves and another assumes) exists once
+        k = 0
+        while k < len(lines):
+            st0 = lines[k].strip()
+            if st0.startswith('//@ include '):
+                inc = os.path.join(os.path.dirname(os.path.abspath(template_path)), st0.split()[2])
+                if not os.path.exists(inc):
+                    raise ExtractError('include %s missing' % inc)
+                txt = open(inc).read()
+                for kv in st0.split()[3:]:      # NAME=text pairs replace @NAME@ in the included file
+                    if '=' in kv:
+                        nm, val = kv.split('=', 1)
+                        txt = txt.replace('@' + nm + '@', val)
+                lines[k:k + 1] = [l for l in txt.split('\n')]
+                self.meta.setdefault('includes', []).append(st0.split()[2])
+                continue
+            k += 1
         pieces = []
         i = 0
         while i < len(lines):
